@@ -7,7 +7,7 @@ import sys
 import time
 
 from common import compare_cases, standard_main, run_impl, run_model, WORK, sfs_path, ENV
-from callsets import render_vcf, bgzf_compress, vcf_to_bcf
+from callsets import render_vcf, bgzf_compress, vcf_to_bcf, bcf_encode_hts
 from floats import tok, random_bits
 from gen_create import random_callset
 
@@ -119,8 +119,23 @@ def check(rep, tier, seed):
     if bcf_raw:
         files["bcf-raw"] = bcf_raw
         files["bcf"] = bgzf_compress(bcf_raw, sizes=[500])
+    # a call set longer than the 64 KiB detection prefix: what follows the prefix must arrive intact whatever chunk straddles
+    # the 65536th byte
+    bcols, brecs = random_callset(rng, nsamples=4, nrecords=2200, p_skip=0.05)
+    brecs = [[g if g != "." else "./." for g in r] for r in brecs]
+    bigvcf = render_vcf(bcols, brecs)
+    bigfiles = {"big-vcf": bigvcf, "big-vcf.gz": bgzf_compress(bigvcf, sizes=[3000]), "big-bcf-raw": bcf_encode_hts(bigvcf)}
+    rep.coverage["big_call_set_bytes"] = {k: len(v) for k, v in bigfiles.items()}
     gcases, gmeta = [], []
+    for name, data in bigfiles.items():
+        path = os.path.join(d, "in." + name)
+        open(path, "wb").write(data)
+        files[name] = data
+        for sc in [[]] + [[f] + [8192] * 40 for f in (1, 2, 1000, 4097, 8191, 65535, 65536, 65537)] + [[rng.randrange(1, 20000) for _ in range(60)] for _ in range(4)] + [[7919] * 100]:
+            gcases.append("cgeno %s %s - 1" % (path, fmt(sc))); gmeta.append((name, "schedule", sc[:1]))
     for name, data in files.items():
+        if name.startswith("big-"):
+            continue
         path = os.path.join(d, "in." + name)
         open(path, "wb").write(data)
         L = len(data)
